@@ -23,6 +23,7 @@ no temporary directory is left; a failed load (damaged saves of both formats, ev
 save and load work.
 """
 import hashlib
+import io
 import os
 import shutil
 import tempfile
@@ -42,26 +43,69 @@ _sys = mx.core.mxsys
 
 # ----------------------------------------------------------------------------- programs
 
-MODEL_KINDS = ["flat", "nested", "pandas"]
+MODEL_KINDS = ["flat", "nested", "pandas", "module", "excel", "mixed"]
+IO_KINDS = ("pandas", "module", "excel", "mixed")      # models that own IO data files
+
+_MODULE_SRC = "def twice(x):\n    return 2 * x\n\n\ndef shift(x):\n    return x + %d\n"
+_SRC_DIR = None
+
+
+def _sources():
+    """files the IO data of the models is created from (outside every save location)"""
+    global _SRC_DIR
+    if _SRC_DIR is None or not os.path.isdir(_SRC_DIR):
+        _SRC_DIR = tempfile.mkdtemp(prefix="mxh_c14_src_", dir=_SRC_ROOT or None)
+        for i in (1, 2):
+            with open(os.path.join(_SRC_DIR, "helper%d.py" % i), "w") as f:
+                f.write(_MODULE_SRC % i)
+        import openpyxl
+        wb = openpyxl.Workbook()
+        ws = wb.active
+        ws.title = "Sheet1"
+        for r, row in enumerate([["k", "v"], ["a", 1], ["b", 2], ["c", 3]], start=1):
+            for c, v in enumerate(row, start=1):
+                ws.cell(row=r, column=c, value=v)
+        wb.save(os.path.join(_SRC_DIR, "book.xlsx"))
+    return _SRC_DIR
+
+
+_SRC_ROOT = None
 
 
 def build_model(kind, name="Saved"):
-    """-> (model, set_gen)"""
+    """a model of one of MODEL_KINDS.  The IO kinds own data files with paths relative to the
+    model (module sources, csv and Excel files written by pandas, an Excel workbook read by
+    openpyxl): a directory save writes them below the path, a zip save writes them into a work
+    directory and copies them into the archive (ziputil.archive_dir / copy_file); a load from an
+    archive extracts them again (copy_file, archive -> file)."""
     with quiet():
         m = mx.new_model(name)
         s = m.new_space("S")
         s.new_cells("f", formula="lambda x: x * gen")
         s.gen = 0
         s.f[7] = 70                       # input value -> S/_data/f (and a non-empty _input_log.txt)
-        if kind in ("nested", "pandas"):
+        if kind != "flat":
             c = s.new_space("Child")
             c.new_cells("g", formula="lambda: 5")
             s.lst = [1, 2, 3]             # pickled -> _data/data.pickle
             m.top = "abc"
-        if kind == "pandas":
+        if kind in ("pandas", "mixed"):
             import pandas as pd
             df = pd.DataFrame({"a": [1, 2], "b": [3, 4]})
             m.new_pandas("df", "files/df.csv", df, file_type="csv")
+        if kind in ("module", "mixed"):
+            src = _sources()
+            m.new_module("helper", "lib/helper.py", os.path.join(src, "helper1.py"))
+            s.new_module("helper2", "lib/sub/helper2.py", os.path.join(src, "helper2.py"))
+            s.new_cells("h", formula="lambda x: helper2.shift(x)")
+        if kind in ("excel", "mixed"):
+            import pandas as pd
+            src = _sources()
+            # two specs in one workbook written by pandas, one range of a workbook kept by openpyxl
+            m.new_pandas("xa", "files/book.xlsx", pd.DataFrame({"p": [1, 2, 3]}), file_type="excel", sheet="A")
+            s.new_pandas("xb", "files/book.xlsx", pd.Series([4, 5], name="xb"), file_type="excel", sheet="B")
+            s.new_excel_range("rng", "files/range.xlsx", "A2:B4", sheet="Sheet1", keyids=["c0"],
+                              loadpath=os.path.join(src, "book.xlsx"))
     return m
 
 
@@ -69,12 +113,27 @@ def set_gen(m, g):
     m.S.gen = g
 
 
+def _describe_value(v):
+    """a reference's value, independent of addresses and of where the model was loaded from"""
+    import types
+    if isinstance(v, types.ModuleType):
+        return ("module", sorted((n, repr(f(3))) for n, f in vars(v).items()
+                                 if callable(f) and not n.startswith("_")))
+    if hasattr(v, "to_dict") and hasattr(v, "index"):          # DataFrame / Series
+        return ("pandas", type(v).__name__, repr(sorted((repr(k), repr(x)) for k, x in v.to_dict().items())),
+                repr(list(v.index)))
+    if type(v).__name__ == "ExcelRange":
+        return ("xlrange", sorted((repr(k), repr(x)) for k, x in dict(v).items()))
+    return repr(v)
+
+
 def describe(m):
     """what a loaded copy must contain (name-independent)"""
     d = {}
     for sn, s in m.spaces.items():
         d[sn] = _describe_space(s)
-    d["#refs"] = sorted(k for k in m.refs if not k.startswith("_"))
+    d["#refs"] = {k: _describe_value(v) for k, v in m.refs.items() if not k.startswith("_")}
+    d["#iospecs"] = sorted((type(sp).__name__, sp.path.as_posix()) for sp in m.iospecs)
     return d
 
 
@@ -83,8 +142,7 @@ def _describe_space(s):
         "cells": {cn: (c.formula.source if c.formula else None,
                        sorted((repr(k), repr(v)) for k, v in dict(c).items()))
                   for cn, c in s.cells.items()},
-        "refs": {k: repr(v) if not hasattr(v, "shape") else "df%s" % (v.shape,)
-                 for k, v in s.refs.items() if not k.startswith("_")},
+        "refs": {k: _describe_value(v) for k, v in s.refs.items() if not k.startswith("_")},
         "spaces": {n: _describe_space(c) for n, c in s.named_spaces.items()},
     }
 
@@ -99,6 +157,22 @@ def slot_name(i):
     return "P" if i == 0 else "B%d" % i
 
 
+def _content_sig(name, data):
+    """sha1 of a member's content; a workbook (itself an archive whose `docProps/core.xml` carries
+    the time of writing) is compared member by member without that file"""
+    if name.endswith(".xlsx"):
+        try:
+            with zipfile.ZipFile(io.BytesIO(data)) as z:
+                if z.testzip() is not None:
+                    return "xlsx:damaged"
+                inner = sorted((n, hashlib.sha1(z.read(n)).hexdigest()) for n in z.namelist()
+                               if n != "docProps/core.xml")
+            return "xlsx:" + hashlib.sha1(repr(inner).encode()).hexdigest()
+        except Exception:
+            return "xlsx:unreadable:" + hashlib.sha1(data).hexdigest()
+    return hashlib.sha1(data).hexdigest()
+
+
 def signature(path):
     """canonical content of a slot: relative name -> sha1 of the content; None if unreadable"""
     if os.path.isdir(path):
@@ -110,13 +184,14 @@ def signature(path):
                 sig[rel + "/"] = "dir"
             for f in sorted(files):
                 with open(os.path.join(d, f), "rb") as fh:
-                    sig[os.path.normpath(os.path.join(rel, f))] = hashlib.sha1(fh.read()).hexdigest()
+                    name = os.path.normpath(os.path.join(rel, f))
+                    sig[name] = _content_sig(name, fh.read())
         return sig
     try:
         with zipfile.ZipFile(path) as z:
             if z.testzip() is not None:
                 return None
-            return {n: hashlib.sha1(z.read(n)).hexdigest() for n in sorted(z.namelist())}
+            return {n: _content_sig(n, z.read(n)) for n in sorted(z.namelist())}
     except Exception:
         return None
 
@@ -178,11 +253,11 @@ class World:
             return pre + "T" + s[len(self.T):]
         return pre + "?" + s
 
-    def attempt(self, fmt, g, fault_at=None, variant="before", backup=True):
+    def attempt(self, fmt, g, fault_at=None, variant="before", backup=True, policy="once", exc="os"):
         """one save; -> (raised kind or None, injector)"""
         set_gen(self.model, g)
         inj = Injector([self.work, self.T], fault_at=fault_at, variant=variant, label=self.label,
-                       reads=True)
+                       reads=True, policy=policy, exc=exc)
         raised = None
         with quiet():
             with inj:
@@ -239,11 +314,30 @@ class World:
 
 # ----------------------------------------------------------------------------- traces -> plan tokens
 
-def tokens_of(trace, complete):
-    """map the implementation's operation trace to the model's primitives"""
+def _is_tmp_archive(a0):
+    """`T/<temporary directory>/model`: the archive a zip save builds before it is moved"""
+    return a0.startswith("T/") and a0.count("/") == 2 and a0.endswith("/model")
+
+
+def tokens_of(trace, complete, fmt=None):
+    """map the implementation's operation trace to the model's primitives.
+
+    rotation: `rmN` / `rmN!` / `mvN`;  writer, directory format: `mkroot`, `w` (an operation below the
+    path; `W` the last one), zip format: `move`;  both: `t` (an operation in the temporary directory),
+    `c` / `r` (zipfile.ZipFile opens a new or still empty / an already filled archive for update: an
+    OSError of that open is swallowed by zipfile's file-mode retry, which for `r` truncates), `p` (an
+    operation under a handler that absorbs one PermissionError and tries again: ZipFile.write/close
+    inside ziputil.copy_file's GH82 loop, the unlink/rmdir of TemporaryDirectory.cleanup)."""
+    zip_targets = set()
+    for ent in trace:
+        for a in ent[1:]:
+            if isinstance(a, str) and a.startswith("zip:"):
+                zip_targets.add(a[4:])
     toks = []
     phase = "rot"
-    opens = 0
+    opens = {}
+    in_copy = False          # between ZipFile.write(src, member) and the close of that ZipFile
+    moved = False
     for ent in trace:
         name, args = ent[0], ent[1:]
         a0 = args[0] if args else ""
@@ -263,21 +357,32 @@ def tokens_of(trace, complete):
                 continue
             phase = "write"
         # writer
+        in_T = a0 == "T" or a0.startswith("T/") or a0.startswith("zip:T/")
+        in_P = a0.startswith("P/") or a0.startswith("zip:P/")
         if name == "mkdir" and a0 == "P":
             toks.append("mkroot")
         elif name == "rename" and len(args) == 2 and a0.startswith("T") and args[1] == "P":
             toks.append("move")
-        elif name == "open:w" and a0.startswith("T/") and a0.count("/") == 2 and a0.endswith("/model"):
-            # ZipFile(root, "w" | "a"): an OSError here is swallowed by zipfile (retry with the next
-            # file mode); from the third opening on the retry truncates an archive that has members
-            opens += 1
-            toks.append("c" if opens <= 2 else "r")
-        elif a0.startswith("T") or a0.startswith("zip:T") or (a0.startswith("<fd>") and "move" in toks) \
-                or (name.startswith("pickle") and any(t in ("t", "c", "r") for t in toks)) \
-                or (name.startswith("zip.")):
-            toks.append("t")
-        elif a0.startswith("P/") or name.startswith("pickle"):
+            moved = True
+        elif moved:
+            # tempdir.cleanup(): rmtree with TemporaryDirectory's PermissionError handler
+            toks.append("p" if name in ("unlink", "rmdir") else "?%s:%s" % (name, a0))
+        elif name == "open:w+" and a0 in zip_targets:
+            # ZipFile(file, "w" | "a"): an OSError here is swallowed by zipfile (retry with the next
+            # file mode); for the temporary archive, from the third opening on the retry truncates
+            # an archive that has members
+            opens[a0] = opens.get(a0, 0) + 1
+            toks.append("r" if _is_tmp_archive(a0) and opens[a0] > 2 else "c")
+        elif name == "zip.write" and a0.startswith("zip:") and _is_tmp_archive(a0[4:]):
+            in_copy = True
+            toks.append("p")
+        elif name == "zip.close" and in_copy and a0.startswith("zip:") and _is_tmp_archive(a0[4:]):
+            in_copy = False
+            toks.append("p")
+        elif in_P or (name.startswith("pickle") and fmt == "dir"):
             toks.append("w")
+        elif in_T or (name.startswith("pickle") and fmt == "zip"):
+            toks.append("t")
         else:
             toks.append("?%s:%s" % (name, a0))
     if complete and toks and toks[-1] == "w":
@@ -296,14 +401,17 @@ def compress(toks):
 
 
 def sizes_of(toks):
-    """what the environment determines: entries of the tree removed, the writer's operations"""
+    """what the environment determines: entries of the tree removed, the writer's operations
+    (directory format: those after `make_root` but the last, zip format: those before the move), the
+    number of clean-up operations after the move"""
     nrm = sum(1 for t in toks if t.startswith("rm"))
     if "move" in toks:
         k = toks.index("move")
-        n1 = "".join(t for t in toks[:k] if t in ("t", "c", "r")) or "-"
-        n2 = sum(1 for t in toks[k + 1:] if t == "t")
+        n1 = "".join(t for t in toks[:k] if t in ("t", "c", "r", "p")) or "-"
+        n2 = sum(1 for t in toks[k + 1:] if t == "p")
     else:
-        n1 = max(sum(1 for t in toks if t in ("w", "W")) - 1, 0)
+        body = [t for t in toks if t in ("w", "W", "t", "c")]
+        n1 = "".join(body[:-1]) or "-"
         n2 = 0
     return max(nrm, 1), n1, n2
 
